@@ -1,3 +1,317 @@
-/- Property theorems for C08 — to be filled in. -/
+/-
+  C08 — queue: at-least-once delivery, one holder at a time, nothing lost.
+
+  All theorems are about the executable model `Stab.Queue` (lean/Stab/Model/Queue.lean), which mirrors
+  the SQL of `queue/sqlite/queue.py`, `dlq.py` and `transaction.py:push_message`; the model is tied to the
+  code by the Mode-A differential in harness/props/c08.py.  Invariants and their per-primitive
+  preservation proofs are in `Stab/Lemmas/Queue.lean` and `Queue2.lean`.
+
+  `run (init m) ops` ranges over EVERY op sequence: pushes (plain / transactional with its own limit /
+  undeserialisable), split and atomic polls by any number of workers, ack / reschedule / extend by anyone
+  (also by workers that never held the row), expire / mature (abstract time), DLQ moves, sweeps, replays,
+  and a crash at any commit of any of these.
+-/
+import Stab.Lemmas.Queue2
+
 namespace Stab.Props.C08
+open Stab Stab.Queue
+
+/-! ## nothing lost, nothing duplicated -/
+
+/-- **Conservation.** After any op sequence (crashes included) every payload that was ever pushed
+    (`t < nextTag`) is in exactly one of: queue, dead-letter queue, acknowledged; and nothing else is. -/
+theorem conservation (m : Nat) (ops : List Op) (t : Nat) :
+    places (run (init m) ops) t = if t < (run (init m) ops).nextTag then 1 else 0 :=
+  cons_run (base_init m) (cons_init m) ops t
+
+/-- the three places are pairwise disjoint and cover the pushed payloads -/
+theorem exactly_one_place (m : Nat) (ops : List Op) (t : Nat) (h : t < (run (init m) ops).nextTag) :
+    let s := run (init m) ops
+    ((queueTags s).count t = 1 ∧ (dlqTags s).count t = 0 ∧ s.acked.count t = 0) ∨
+    ((queueTags s).count t = 0 ∧ (dlqTags s).count t = 1 ∧ s.acked.count t = 0) ∨
+    ((queueTags s).count t = 0 ∧ (dlqTags s).count t = 0 ∧ s.acked.count t = 1) := by
+  have := conservation m ops t
+  simp only [h, if_true, places] at this
+  intro s
+  simp only [s]
+  omega
+
+/-- **At least once.** A pushed payload that has not been acknowledged is still in the queue or in the DLQ. -/
+theorem at_least_once (m : Nat) (ops : List Op) (t : Nat)
+    (hp : t < (run (init m) ops).nextTag) (hn : t ∉ (run (init m) ops).acked) :
+    t ∈ queueTags (run (init m) ops) ∨ t ∈ dlqTags (run (init m) ops) := by
+  have := conservation m ops t
+  simp only [hp, if_true, places, List.count_eq_zero_of_not_mem hn] at this
+  by_cases h : t ∈ queueTags (run (init m) ops)
+  · exact Or.inl h
+  · right
+    have := List.count_eq_zero_of_not_mem h
+    apply List.count_pos_iff.mp
+    omega
+
+/-- … and it is deliverable again once its delay and its lock have lapsed, as long as it is below the
+    queue's attempt limit: the poll's SELECT then returns some row (never "nothing"). -/
+theorem redeliverable (s : State) (r : Row) (hr : r ∈ s.rows) (ha : r.attempts < s.maxAttempts) :
+    let s' := run s [.act (.mature r.id), .act (.expire r.id)]
+    (∃ r' ∈ s'.rows, r'.id = r.id ∧ r'.tag = r.tag ∧ eligible s'.maxAttempts r' = true) ∧
+    ∃ c, candidate s' = some c := by
+  obtain ⟨r', hr', h1, h2, h3⟩ := eligible_after_mature_expire hr ha
+  exact ⟨⟨r', hr', h1, h2, h3⟩, candidate_some_of_eligible hr' h3⟩
+
+/-- ids are unique and never reused (what `DELETE/UPDATE … WHERE id = :id` relies on) -/
+theorem ids_unique (m : Nat) (ops : List Op) :
+    (run (init m) ops).rows.Pairwise (fun a b => a.id ≠ b.id) ∧
+    ∀ r ∈ (run (init m) ops).rows, r.id < (run (init m) ops).nextId :=
+  ⟨(base_run (base_init m) ops).idNodup, (base_run (base_init m) ops).idLt⟩
+
+/-! ## one holder at a time -/
+
+/-- **Claim exclusivity.** Once a claim `UPDATE … WHERE id = :id AND version = :version` has hit a row,
+    no row ever matches that `(id, version)` again — whatever happens afterwards.  So of all claims
+    based on one SELECTed `(id, version)`, at most one has `rowcount = 1`. -/
+theorem claim_exclusive (m : Nat) (pre post : List Op) (w : Nat) (x : Sel) (r : Row)
+    (hx : selOf (run (init m) pre) w = some x) (hr : matched (run (init m) pre) x = some r) :
+    ∀ r' ∈ (run (next (run (init m) pre) (.act (.pollClaim w))) post).rows,
+      ¬ (r'.id = x.id ∧ r'.version = x.version) := by
+  intro r' hr' ⟨h1, h2⟩
+  have hb := base_run (base_init m) pre
+  have := (verGt_run (verGt_after_claim hb hx hr) post).2 r' hr' h1
+  omega
+
+/-- the second claimer of the same snapshot loses (`poll_one` returns `None`) -/
+theorem second_claim_loses (m : Nat) (pre post : List Op) (w w' : Nat) (x x' : Sel) (r : Row)
+    (hx : selOf (run (init m) pre) w = some x) (hr : matched (run (init m) pre) x = some r)
+    (hx' : selOf (run (next (run (init m) pre) (.act (.pollClaim w))) post) w' = some x')
+    (same : x'.id = x.id ∧ x'.version = x.version) :
+    claimHits (run (next (run (init m) pre) (.act (.pollClaim w))) post) w' = none := by
+  simp only [claimHits, hx']
+  cases hm : matched (run (next (run (init m) pre) (.act (.pollClaim w))) post) x' with
+  | none => rfl
+  | some r' =>
+    obtain ⟨h1, h2, h3⟩ := matched_mem hm
+    exact absurd ⟨by omega, by omega⟩ (claim_exclusive m pre post w x r hx hr r' h1)
+
+/-
+  FULL STATEMENT (false, see the counterexamples below):
+    ∀ m ops i, (liveOn (run (init m) ops) i).length ≤ 1
+  i.e. "no two workers hold the same row at the same time" for EVERY op sequence.
+  What is proved: it holds for every op sequence in which `reschedule` and `extend` are only issued by a
+  worker whose lease on that row has not lapsed (`disciplinedRun`; `ack` is unrestricted, so are all
+  other ops, incl. crashes).  What is missing is exactly that side condition — the code does not enforce
+  it: `reschedule` / `extend_lock` are `UPDATE … WHERE id = :id` with no claim token.
+-/
+
+/-- **One holder (partial).** Along a disciplined run: at most one live lease per row; a row with a live
+    lease is locked; and every pending SELECT result for it is stale. -/
+theorem no_claim_while_locked_partial (m : Nat) (ops : List Op) (ok : disciplinedRun (init m) ops = true) (i : Nat) :
+    let s := run (init m) ops
+    (liveOn s i).length ≤ 1 ∧
+    (∀ l ∈ liveOn s i, ∀ r ∈ s.rows, r.id = i → r.lock = .held) ∧
+    (∀ l ∈ liveOn s i, ∀ w, ∀ x, selOf s w = some x → x.id = i → claimHits s w = none) ∧
+    (∀ l ∈ liveOn s i, ∀ c, candidate s = some c → c.id ≠ i) := by
+  intro s
+  have hb : Base s := base_run (base_init m) ops
+  have he : Excl s := excl_run (base_init m) (excl_init m) ops ok
+  refine ⟨liveOn_le_one _ _ he.oneLive, ?_, ?_, ?_⟩
+  · intro l hl r hr hi
+    simp only [liveOn, List.mem_filter, Bool.and_eq_true, beq_iff_eq] at hl
+    exact he.heldOfLive l hl.1 hl.2.1 r hr (by omega)
+  · intro l hl w x hx hxi
+    simp only [liveOn, List.mem_filter, Bool.and_eq_true, beq_iff_eq] at hl
+    simp only [claimHits, hx]
+    cases hm : matched s x with
+    | none => rfl
+    | some r =>
+      obtain ⟨h1, h2, h3⟩ := matched_mem hm
+      have := he.selStale x (selOf_mem hx).1 l hl.1 hl.2.1 (by omega) r h1 h2
+      omega
+  · intro l hl c hc e
+    simp only [liveOn, List.mem_filter, Bool.and_eq_true, beq_iff_eq] at hl
+    obtain ⟨hm, hel⟩ := candidate_mem hc
+    have := he.heldOfLive l hl.1 hl.2.1 c hm (by omega)
+    simp [eligible, this] at hel
+
+/-- a claim that succeeds in a disciplined run takes a row nobody holds -/
+theorem claim_takes_unheld_row (m : Nat) (ops : List Op) (ok : disciplinedRun (init m) ops = true)
+    (w : Nat) (r : Row) (h : claimHits (run (init m) ops) w = some r) :
+    liveOn (run (init m) ops) r.id = [] := by
+  cases hl : liveOn (run (init m) ops) r.id with
+  | nil => rfl
+  | cons l ls =>
+    exfalso
+    simp only [claimHits] at h
+    cases hx : selOf (run (init m) ops) w with
+    | none => simp [hx] at h
+    | some x =>
+      simp only [hx] at h
+      obtain ⟨_, h2, _⟩ := matched_mem h
+      have := (no_claim_while_locked_partial m ops ok r.id).2.2.1 l (by rw [hl]; simp) w x hx h2.symm
+      simp [claimHits, hx, h] at this
+
+/-- F14 witness: A polls; its lock lapses; B polls and holds the row; A's (stale) `reschedule` clears
+    B's lock; C polls and gets the row while B still holds it. -/
+def f14Ops : List Op :=
+  [.act (.push false), .act (.poll 0), .act (.expire 1), .act (.poll 1),
+   .act (.reschedule 0 1 false), .act (.poll 2)]
+
+/-- F14b witness: A's lock lapses; B SELECTs the row; A's heartbeat `extend_lock` revives A's lock
+    (no version bump); B's claim still matches the version and succeeds. -/
+def f14bOps : List Op :=
+  [.act (.push false), .act (.poll 0), .act (.expire 1), .act (.pollSelect 1),
+   .act (.extend 0 1), .act (.pollClaim 1)]
+
+/-- **The unrestricted statement is false** (model and code): two workers hold row 1 at once. -/
+theorem no_claim_while_locked_counterexample :
+    ¬ (∀ (m : Nat) (ops : List Op) (i : Nat), (liveOn (run (init m) ops) i).length ≤ 1) := by
+  intro h
+  exact absurd (h 3 f14Ops 1) (by decide)
+
+theorem no_claim_while_locked_counterexample_extend :
+    ¬ (∀ (m : Nat) (ops : List Op) (i : Nat), (liveOn (run (init m) ops) i).length ≤ 1) := by
+  intro h
+  exact absurd (h 3 f14bOps 1) (by decide)
+
+-- the witnesses are not disciplined, and the last poll of F14 really hands the row out
+example : disciplinedRun (init 3) f14Ops = false ∧ disciplinedRun (init 3) f14bOps = false := by decide
+example : outOf (run (init 3) (f14Ops.take 5)) (.act (.poll 2)) = .got 1 0 3 := by decide
+-- non-vacuity of the hypothesis: a disciplined run with two workers, a lapse and a re-claim
+example : disciplinedRun (init 3) [.act (.push false), .act (.poll 0), .act (.extend 0 1), .act (.expire 1),
+    .act (.poll 1), .act (.ack 0 1)] = true := by decide
+
+/-! ## attempt limit and dead-letter queue -/
+
+/-- the poll's SELECT never returns a row at or above the QUEUE's limit -/
+theorem poll_respects_limit (s : State) (r : Row) (h : candidate s = some r) : r.attempts < s.maxAttempts := by
+  have := (candidate_mem h).2
+  simp [eligible] at this
+  exact this.2
+
+/-- **Never polled again.** In every reachable state a claim can only hit a row below the queue's
+    limit (a SELECT result taken before the row reached the limit is stale by then). -/
+theorem dlq_at_limit_never_claimed (m : Nat) (ops : List Op) (w : Nat) (r : Row)
+    (h : claimHits (run (init m) ops) w = some r) : r.attempts < (run (init m) ops).maxAttempts := by
+  have hb := base_run (base_init m) ops
+  simp only [claimHits] at h
+  cases hx : selOf (run (init m) ops) w with
+  | none => simp [hx] at h
+  | some x =>
+    simp only [hx] at h
+    obtain ⟨h1, h2, h3⟩ := matched_mem h
+    have := hb.selAtt x (selOf_mem hx).1 r h1 h2 h3
+    omega
+
+/-- **Moved, not dropped.** The sweep removes exactly the rows with `attempts ≥ their max_attempts column`
+    and each of them is in the DLQ afterwards with the same payload; older DLQ entries stay. -/
+theorem dlq_at_limit_sweep (m : Nat) (ops : List Op) :
+    let s := run (init m) ops
+    let s' := next s (.act .sweep)
+    s'.rows = s.rows.filter (fun r => decide (r.attempts < r.maxAtt)) ∧
+    (∀ r ∈ s.rows, r.attempts ≥ r.maxAtt →
+      ∃ d ∈ s'.dlq, d.tag = r.tag ∧ d.origId = r.id ∧ d.attempts = r.attempts ∧ d.bad = r.bad) ∧
+    (∀ d ∈ s.dlq, d ∈ s'.dlq) := by
+  intro s s'
+  have hb : Base s := base_run (base_init m) ops
+  have hu := unique_of_pairwise (fun r : Row => r.id) s.rows hb.idNodup
+  obtain ⟨h1, h2, h3⟩ := sweep_spec (sweepIds s) s hb
+  refine ⟨?_, ?_, h2⟩
+  · show (applyPrims s ((sweepIds s).map Prim.moveToDlq)).rows = _
+    rw [h1]
+    apply List.filter_congr
+    intro r hr
+    have key : (sweepIds s).contains r.id = true ↔ r.attempts ≥ r.maxAtt := by
+      rw [List.contains_iff_mem]
+      simp only [sweepIds, List.mem_map, List.mem_filter, decide_eq_true_eq]
+      constructor
+      · rintro ⟨r0, ⟨hr0, hge⟩, hid⟩
+        have : r0 = r := hu r0 hr0 r hr hid
+        subst this; exact hge
+      · intro hge; exact ⟨r, ⟨hr, hge⟩, rfl⟩
+    rw [Bool.eq_iff_iff]
+    simp only [Bool.not_eq_true', decide_eq_true_eq]
+    rw [← Bool.not_eq_true, key]
+    omega
+  · intro r hr hge
+    apply h3 r hr
+    simp only [sweepIds, List.mem_map, List.mem_filter, decide_eq_true_eq]
+    exact ⟨r, ⟨hr, hge⟩, rfl⟩
+
+/-- **F13 (stranded row).** If a row's attempts reached the QUEUE's limit (`poll_one` filters on it) but not
+    the ROW's own `max_attempts` column (`check_and_move_expired` filters on that) — which happens when
+    `SqliteQueue(max_attempts=q)` is combined with transaction-pushed or replayed rows (column 10) and
+    `q < 10` — then no sequence of polls, sweeps, pushes, replays, reschedules, extends, time steps or crashes
+    ever delivers it or moves it to the DLQ: it stays in the queue with the same attempt count until
+    someone deletes it by hand (explicit `ack` / `move_to_dlq` of that id). -/
+theorem stranded_between_limits (m : Nat) (pre post : List Op) (r : Row)
+    (hr : r ∈ (run (init m) pre).rows) (h1 : (run (init m) pre).maxAttempts ≤ r.attempts) (h2 : r.attempts < r.maxAtt)
+    (hk : ∀ op ∈ post, opKeeps r.id op = true) :
+    ∃ r' ∈ (run (run (init m) pre) post).rows, r'.id = r.id ∧ r'.attempts = r.attempts ∧
+      (∀ w, ∀ r'', claimHits (run (run (init m) pre) post) w = some r'' → r''.id ≠ r.id) ∧
+      (∀ c, candidate (run (run (init m) pre) post) = some c → c.id ≠ r.id) := by
+  have hb := base_run (base_init m) pre
+  have st : Stuck r.id r.attempts r.maxAtt (run (init m) pre) := ⟨hb, h1, h2, r, hr, rfl, rfl, rfl⟩
+  obtain ⟨hb', g1, g2, r', hr', hi, ha, hm⟩ := stuck_run st post hk
+  have hu := unique_of_pairwise (fun r : Row => r.id) _ hb'.idNodup
+  refine ⟨r', hr', hi, ha, ?_, ?_⟩
+  · intro w r'' hc e
+    simp only [claimHits] at hc
+    cases hx : selOf (run (run (init m) pre) post) w with
+    | none => simp [hx] at hc
+    | some x =>
+      simp only [hx] at hc
+      obtain ⟨q1, q2, q3⟩ := matched_mem hc
+      have : r'' = r' := hu r'' q1 r' hr' (by omega)
+      subst this
+      have := hb'.selAtt x (selOf_mem hx).1 r'' q1 q2 q3
+      omega
+  · intro c hc e
+    obtain ⟨q1, q2⟩ := candidate_mem hc
+    have : c = r' := hu c q1 r' hr' (by omega)
+    subst this
+    simp [eligible] at q2
+    omega
+
+-- F13 is reachable: queue limit 1, a transaction-pushed row with its own limit 10, one failed attempt
+example : ∃ r ∈ (run (init 1) [.act (.pushTxn 10 false), .act (.poll 0), .act (.reschedule 0 1 false)]).rows,
+    (run (init 1) [.act (.pushTxn 10 false), .act (.poll 0), .act (.reschedule 0 1 false)]).maxAttempts ≤ r.attempts
+      ∧ r.attempts < r.maxAtt := by decide
+-- and with equal limits the sweep does move the exhausted row
+example : (run (init 1) [.act (.push false), .act (.poll 0), .act (.reschedule 0 1 false), .act .sweep]).rows = []
+    ∧ (dlqTags (run (init 1) [.act (.push false), .act (.poll 0), .act (.reschedule 0 1 false), .act .sweep])) = [0] := by
+  decide
+
+/-! ## replay -/
+
+/-- **Replay preserves the payload.** `replay_dlq` removes the DLQ entry and inserts a row with the same
+    payload (tag, deserialisability), a fresh id, attempts 0, unlocked and due. -/
+theorem replay_preserves_payload (m : Nat) (ops : List Op) (d : Nat) (x : DRow)
+    (hx : (run (init m) ops).dlq.find? (fun y => y.did == d) = some x) :
+    let s := run (init m) ops
+    let s' := next s (.act (.replay d))
+    (∃ r ∈ s'.rows, r.id = s.nextId ∧ r.tag = x.tag ∧ r.bad = x.bad ∧ r.attempts = 0 ∧ r.lock = .free ∧
+        r.deliverable = true) ∧
+    (∀ y ∈ s'.dlq, y.did ≠ d) ∧ (∀ r ∈ s.rows, r ∈ s'.rows) := by
+  intro s s'
+  have e : s' = replay s d := rfl
+  rw [e]
+  unfold replay
+  simp only [show s.dlq.find? (fun y => y.did == d) = some x from hx]
+  refine ⟨⟨Row.mk s.nextId x.tag x.bad 0 columnDefaultMaxAtt 0 .free true true s.clock,
+    by simp, rfl, rfl, rfl, rfl, rfl, rfl⟩, ?_, ?_⟩
+  · intro y hy
+    simp only [List.mem_filter, bne_iff_ne, ne_eq] at hy
+    exact hy.2
+  · intro r hr; simp [hr]
+
+/-- a DLQ move keeps the payload too, so move + replay is the identity on payloads -/
+theorem dlq_move_preserves_payload (m : Nat) (ops : List Op) (r : Row) (hr : r ∈ (run (init m) ops).rows) :
+    ∃ d ∈ (next (run (init m) ops) (.act (.moveToDlq r.id))).dlq,
+      d.tag = r.tag ∧ d.origId = r.id ∧ d.attempts = r.attempts ∧ d.bad = r.bad :=
+  moveToDlq_moves hr (base_run (base_init m) ops)
+
+-- non-vacuity: a message goes to the DLQ and comes back under a new row id with the same tag
+example : queueTags (run (init 3) [.act (.push false), .act (.moveToDlq 1), .act (.replay 1)]) = [0]
+    ∧ (run (init 3) [.act (.push false), .act (.moveToDlq 1), .act (.replay 1)]).rows.map (·.id) = [2] := by decide
+-- a crash inside the DLQ move (before its single commit) leaves the message in the queue
+example : queueTags (run (init 3) [.act (.push false), .crash (.moveToDlq 1) 0]) = [0] := by decide
+
 end Stab.Props.C08
